@@ -243,4 +243,359 @@ theorem avoids_keeps (fns : List FnDecl) (k : Key) (ops : List Op) :
     rw [ih _ h.2]
     exact step_keeps_other fns s op k h.1
 
+/-! ### the in-flight period of a task (weaker than `avoids`: calls of the key itself are allowed) -/
+
+theorem opKey_call (fns : List FnDecl) (s : St) (c : Spell) : opKey fns s (.call c) = callKey fns c := by
+  simp only [opKey, callKey]
+
+theorem opKey_dirty (fns : List FnDecl) (s : St) (c : Spell) : opKey fns s (.dirty c) = callKey fns c := by
+  simp only [opKey, callKey]
+
+theorem create_unreg_table (s : St) (d : FnDecl) (args : List Nat) (kw : List (Nat × Nat)) (key : Key) :
+    (create s d args kw key false).1.table = s.table := by
+  simp only [create]
+  split <;> rfl
+
+/-- a call whose key already has an entry never changes the table -/
+theorem call_keeps_entry (fns : List FnDecl) (s : St) (c : Spell) (k : Key) (t0 : Nat)
+    (hk : callKey fns c = some k) (hm : mget s.table k = some t0) :
+    (step fns s (.call c)).1.table = s.table := by
+  simp only [callKey] at hk
+  simp only [step]
+  split
+  · rfl
+  · rename_i d hd
+    simp only [hd] at hk
+    split
+    · rfl
+    · rename_i tup htup
+      simp only [htup, Option.some.injEq] at hk
+      subst hk
+      simp only [hm]
+      split
+      · rfl
+      · split
+        · exact create_unreg_table _ _ _ _ _
+        · rfl
+
+/-- one operation that does not end the in-flight period of `t0` under `k` leaves the entry in place -/
+theorem calm_step (fns : List FnDecl) (s : St) (k : Key) (t0 : Nat) (op : Op)
+    (hm : mget s.table k = some t0) (hc : calmOp fns k t0 op = true) :
+    mget (step fns s op).1.table k = some t0 := by
+  cases op with
+  | call c =>
+    by_cases hk : callKey fns c = some k
+    · rw [call_keeps_entry fns s c k t0 hk hm]; exact hm
+    · rw [step_keeps_other fns s _ k (by rw [opKey_call]; exact hk)]; exact hm
+  | dirty c =>
+    simp only [calmOp, bne_iff_ne, ne_eq] at hc
+    rw [step_keeps_other fns s _ k (by rw [opKey_dirty]; exact hc)]; exact hm
+  | complete t o =>
+    simp only [calmOp, bne_iff_ne, ne_eq] at hc
+    simp only [step]
+    split
+    · exact hm
+    · rename_i task ht
+      split
+      · exact hm
+      · split
+        · rename_i hcnd
+          simp only [setTask, Bool.and_eq_true, beq_iff_eq] at hcnd
+          have hne : ¬ k = task.key := by
+            intro e
+            rw [← e, hm] at hcnd
+            exact hc (by injection hcnd.2 with h; exact h.symm)
+          simp [setTask, mget_merase, hne, hm]
+        · exact hm
+  | start t => rw [step_keeps_other fns s _ k (by simp [opKey])]; exact hm
+  | resume t b => rw [step_keeps_other fns s _ k (by simp [opKey])]; exact hm
+  | suspend t => rw [step_keeps_other fns s _ k (by simp [opKey])]; exact hm
+  | threadEnd th => exact hm
+
+theorem calm_keeps (fns : List FnDecl) (k : Key) (t0 : Nat) (ops : List Op) :
+    ∀ s, mget s.table k = some t0 → calm fns k t0 ops = true → mget (finalState fns s ops).table k = some t0 := by
+  induction ops with
+  | nil => intro s hm _; exact hm
+  | cons op ops ih =>
+    intro s hm hc
+    simp only [calm, List.all_cons, Bool.and_eq_true] at hc
+    simp only [finalState]
+    exact ih _ (calm_step fns s k t0 op hm hc.1) (by simpa [calm] using hc.2)
+
+theorem calm_prefix (fns : List FnDecl) (k : Key) (t0 : Nat) (pre post : List Op)
+    (h : calm fns k t0 (pre ++ post) = true) : calm fns k t0 pre = true := by
+  simp only [calm, List.all_append, Bool.and_eq_true] at h
+  exact h.1
+
+theorem avoids_calm (fns : List FnDecl) (k : Key) (t0 : Nat) (ops : List Op) :
+    ∀ s, TableWf s → mget s.table k = some t0 → avoids fns k s ops = true → calm fns k t0 ops = true := by
+  induction ops with
+  | nil => intro _ _ _ _; rfl
+  | cons op ops ih =>
+    intro s hwf hm h
+    simp only [avoids, Bool.and_eq_true, bne_iff_ne, ne_eq] at h
+    have hm' : mget (step fns s op).1.table k = some t0 := by
+      rw [step_keeps_other fns s op k h.1]; exact hm
+    have hrest := ih _ (wf_step fns s op hwf) hm' h.2
+    simp only [calm, List.all_cons, Bool.and_eq_true]
+    refine ⟨?_, by simpa [calm] using hrest⟩
+    cases op with
+    | dirty c => simp only [calmOp, bne_iff_ne, ne_eq]; rw [← opKey_dirty fns s c]; exact h.1
+    | complete t o =>
+      simp only [calmOp, bne_iff_ne, ne_eq]
+      intro e
+      subst e
+      obtain ⟨task, ht, hkey, _, _⟩ := hwf k t hm
+      exact h.1 (by simp [opKey, ht, hkey])
+    | _ => rfl
+
+/-! ### the size of the table -/
+
+theorem merase_absent {κ : Type} [DecidableEq κ] (m : List (κ × Nat)) (x : κ) (h : mget m x = none) : merase m x = m := by
+  induction m with
+  | nil => rfl
+  | cons p m ih =>
+    obtain ⟨k, v⟩ := p
+    simp only [mget] at h
+    split at h
+    · contradiction
+    · rename_i hk
+      simp only [merase, List.filter_cons, hk, decide_false, Bool.not_false, ↓reduceIte, List.cons.injEq, true_and]
+      exact ih h
+
+theorem merase_length_le {κ : Type} [DecidableEq κ] (m : List (κ × Nat)) (x : κ) : (merase m x).length ≤ m.length :=
+  List.length_filter_le _ _
+
+theorem create_size (s : St) (d : FnDecl) (args : List Nat) (kw : List (Nat × Nat)) (key : Key) (reg : Bool)
+    (h : reg = true → mget s.table key = none) :
+    ((create s d args kw key reg).2 = .typeError ∧ (create s d args kw key reg).1 = s) ∨
+    ((create s d args kw key reg).2 = .ret s.tasks.length true ∧
+      (create s d args kw key reg).1.table.length = s.table.length + (if reg then 1 else 0)) := by
+  simp only [create]
+  split
+  · exact Or.inl ⟨rfl, rfl⟩
+  · refine Or.inr ⟨rfl, ?_⟩
+    cases reg with
+    | false => simp
+    | true => simp [mset, merase_absent _ _ (h rfl)]
+
+/-- what the model does to the size of the table is what `sizeOk` allows -/
+theorem step_size (fns : List FnDecl) (s : St) (op : Op) : sizeOk s.table.length (observe fns s op).2 = true := by
+  cases op with
+  | call c =>
+    simp only [observe, step]
+    split
+    · simp [sizeOk]
+    · rename_i d hd
+      split
+      · simp [sizeOk]
+      · rename_i tup hk
+        split
+        · rename_i hm
+          rcases create_size s d (effArgs d c) c.kw { tup := tup, th := c.th, fn := c.fn } true (fun _ => hm) with ⟨h1, h2⟩ | ⟨h1, h2⟩
+          · simp only [sizeOk, h1, h2]; simp
+          · simp only [sizeOk, h1, h2, ↓reduceIte]; simp
+        · split
+          · simp [sizeOk]
+          · split
+            · rcases create_size s d (effArgs d c) c.kw { tup := tup, th := c.th, fn := c.fn } false (fun h => by contradiction) with ⟨h1, h2⟩ | ⟨h1, h2⟩
+              · simp only [sizeOk, h1, h2]; simp
+              · simp only [sizeOk, h1, h2]; simp
+            · simp [sizeOk]
+  | dirty c =>
+    simp only [observe, step]
+    split
+    · simp [sizeOk]
+    · split
+      · simp [sizeOk]
+      · simp only [sizeOk]
+        exact decide_eq_true (merase_length_le s.table _)
+  | start t =>
+    simp only [observe, step]
+    split
+    · simp [sizeOk]
+    · split <;> simp [sizeOk, setTask]
+  | resume t b =>
+    simp only [observe, step]
+    split
+    · simp [sizeOk]
+    · split
+      · simp [sizeOk]
+      · split <;> simp [sizeOk, setTask]
+  | suspend t =>
+    simp only [observe, step]
+    split
+    · simp [sizeOk]
+    · split <;> simp [sizeOk, setTask]
+  | complete t o =>
+    simp only [observe, step]
+    split
+    · simp [sizeOk]
+    · split
+      · simp [sizeOk]
+      · split
+        · simp only [sizeOk, setTask]
+          exact decide_eq_true (merase_length_le s.table _)
+        · simp [sizeOk, setTask]
+  | threadEnd th => simp [observe, step, sizeOk]
+
+/-! ### a body starts at most once -/
+
+def startedAt (s : St) (t : Nat) : Prop := ∃ task, s.tasks[t]? = some task ∧ task.started = true
+
+theorem started_append (s : St) (t : Nat) (x : Task) (tb : List (Key × Nat)) (h : startedAt s t) :
+    startedAt { tasks := s.tasks ++ [x], table := tb } t := by
+  obtain ⟨task, ht, hs⟩ := h
+  have hlt : t < s.tasks.length := (List.getElem?_eq_some_iff.mp ht).1
+  exact ⟨task, by simp [List.getElem?_append_left hlt, ht], hs⟩
+
+theorem started_set (s : St) (t t' : Nat) (x : Task) (h : startedAt s t)
+    (hx : ∀ task, s.tasks[t']? = some task → task.started = true → x.started = true) :
+    startedAt (setTask s t' x) t := by
+  obtain ⟨task, ht, hs⟩ := h
+  have hlt : t < s.tasks.length := (List.getElem?_eq_some_iff.mp ht).1
+  by_cases e : t' = t
+  · subst e
+    exact ⟨x, by simp [setTask, hlt], hx task ht hs⟩
+  · exact ⟨task, by simp [setTask, List.getElem?_set, e, ht], hs⟩
+
+theorem started_create (s : St) (d : FnDecl) (args : List Nat) (kw : List (Nat × Nat)) (key : Key) (reg : Bool)
+    (t : Nat) (h : startedAt s t) : startedAt (create s d args kw key reg).1 t := by
+  simp only [create]
+  split
+  · exact h
+  · exact started_append s t _ _ h
+
+/-- once started, always started -/
+theorem started_step (fns : List FnDecl) (s : St) (op : Op) (t : Nat) (h : startedAt s t) :
+    startedAt (step fns s op).1 t := by
+  cases op with
+  | call c =>
+    simp only [step]
+    split
+    · exact h
+    · split
+      · exact h
+      · split
+        · exact started_create _ _ _ _ _ _ _ h
+        · split
+          · exact h
+          · split
+            · exact started_create _ _ _ _ _ _ _ h
+            · exact h
+  | dirty c =>
+    simp only [step]
+    split
+    · exact h
+    · split
+      · exact h
+      · obtain ⟨task, ht, hs⟩ := h
+        exact ⟨task, ht, hs⟩
+  | start t' =>
+    simp only [step]
+    split
+    · exact h
+    · split
+      · exact h
+      · exact started_set s t t' _ h (fun _ _ _ => rfl)
+  | resume t' b =>
+    simp only [step]
+    split
+    · exact h
+    · rename_i task ht
+      split
+      · exact h
+      · split
+        · exact h
+        · exact started_set s t t' _ h (fun x hx hs => by rw [ht] at hx; injection hx with hx; subst hx; exact hs)
+  | suspend t' =>
+    simp only [step]
+    split
+    · exact h
+    · rename_i task ht
+      split
+      · exact h
+      · exact started_set s t t' _ h (fun x hx hs => by rw [ht] at hx; injection hx with hx; subst hx; exact hs)
+  | complete t' o =>
+    simp only [step]
+    split
+    · exact h
+    · rename_i task ht
+      split
+      · exact h
+      · have := started_set s t t' { task with running := false, out := some o } h
+          (fun x hx hs => by rw [ht] at hx; injection hx with hx; subst hx; exact hs)
+        split
+        · obtain ⟨a, ha, hs⟩ := this
+          exact ⟨a, ha, hs⟩
+        · exact this
+  | threadEnd th => exact h
+
+theorem bodyStarts_cons (t : Nat) (ob : Obs) (obs : List Obs) :
+    bodyStarts t (ob :: obs) = (if isStartOf t ob then 1 else 0) + bodyStarts t obs := by
+  simp only [bodyStarts, List.filter_cons]
+  split <;> simp <;> omega
+
+/-- a `start` answered with a binding: the task was not started before and is started afterwards -/
+theorem start_binding (fns : List FnDecl) (s : St) (t : Nat) (b : Binding)
+    (h : (step fns s (.start t)).2 = .binding b) :
+    ¬ startedAt s t ∧ startedAt (step fns s (.start t)).1 t := by
+  simp only [step] at h ⊢
+  cases ht : s.tasks[t]? with
+  | none => simp [ht] at h
+  | some task =>
+    simp only [ht] at h ⊢
+    by_cases hc : (task.out.isSome || task.started) = true
+    · simp [hc] at h
+    · have hlt : t < s.tasks.length := (List.getElem?_eq_some_iff.mp ht).1
+      simp only [hc, Bool.false_eq_true, ↓reduceIte]
+      constructor
+      · intro ⟨a, ha, hs⟩
+        rw [ht] at ha; injection ha with ha; subst ha
+        simp [hs] at hc
+      · exact ⟨{ task with started := true, running := true }, by simp [setTask, hlt], rfl⟩
+
+theorem isStartOf_observe (fns : List FnDecl) (s : St) (op : Op) (t : Nat)
+    (h : isStartOf t (observe fns s op).2 = true) :
+    op = .start t ∧ ∃ b, (step fns s (.start t)).2 = .binding b := by
+  simp only [isStartOf] at h
+  split at h
+  · rename_i t' b h1 h2
+    have h1' : op = .start t' := h1
+    subst h1'
+    have e : t' = t := by simpa using h
+    subst e
+    exact ⟨rfl, b, h2⟩
+  · contradiction
+
+/-- a started task is not started again -/
+theorem no_start_after (fns : List FnDecl) (t : Nat) (ops : List Op) :
+    ∀ s, startedAt s t → bodyStarts t (run fns s ops) = 0 := by
+  induction ops with
+  | nil => intro _ _; rfl
+  | cons op ops ih =>
+    intro s h
+    show bodyStarts t ((observe fns s op).2 :: run fns (step fns s op).1 ops) = 0
+    rw [bodyStarts_cons, ih _ (started_step fns s op t h)]
+    by_cases hc : isStartOf t (observe fns s op).2 = true
+    · obtain ⟨e, b, hb⟩ := isStartOf_observe fns s op t hc
+      exact absurd h (start_binding fns s t b hb).1
+    · simp [hc]
+
+theorem starts_once (fns : List FnDecl) (t : Nat) (ops : List Op) :
+    ∀ s, bodyStarts t (run fns s ops) ≤ 1 := by
+  induction ops with
+  | nil => intro _; simp [run, bodyStarts]
+  | cons op ops ih =>
+    intro s
+    show bodyStarts t ((observe fns s op).2 :: run fns (step fns s op).1 ops) ≤ 1
+    rw [bodyStarts_cons]
+    by_cases hc : isStartOf t (observe fns s op).2 = true
+    · obtain ⟨e, b, hb⟩ := isStartOf_observe fns s op t hc
+      subst e
+      rw [no_start_after fns t ops _ (start_binding fns s t b hb).2]
+      simp [hc]
+    · simp only [hc, Bool.false_eq_true, ↓reduceIte, Nat.zero_add]
+      exact ih _
+
 end AsynqModel.Dedup
